@@ -10,8 +10,15 @@
 (* BFS with VIEW = model state (hist excluded): one shortest schedule per    *)
 (* reachable model state up to K steps (the harness drops schedules that are *)
 (* proper prefixes of others).  -simulate: random walks of K steps.          *)
+(* Focus (Gen_resv.cfg): the reservation's life cycle alone, exhaustively and *)
+(* unsampled - every ORDER (the view keeps the order of the reports, not only *)
+(* the model state) of {reported unschedulable, scheduled on the pod's        *)
+(* node / another node, failed for good, preempted, expired, deleted, bound}  *)
+(* interleaved with reconciles (the pod only disappears once its eviction has *)
+(* been issued; no replacement, restart, clock): e.g. "unschedulable, seen by *)
+(* the job, and only THEN scheduled on the pod's own node".                   *)
 EXTENDS MC_MigrationJob, Json, SequencesExt
-CONSTANTS K, GenFaults, TailLen, Biased
+CONSTANTS K, GenFaults, TailLen, Biased, Focus
 VARIABLES hist, tail         \* tail: steps taken since the job reached a terminal phase
 gvars == <<vars, hist, tail>>
 H(rec) == hist' = Append(hist, rec)
@@ -31,19 +38,24 @@ GenStep ==
   \/ RExpire /\ H([op |-> "rexpire"])
   \/ RDelete /\ H([op |-> "rdelete"])
   \/ \E w \in {"other", "same"} : RBind(w) /\ H([op |-> "rbind", who |-> w])
-  \/ Rare /\ PodDelete /\ H([op |-> "poddelete"])
-  \/ PodReady /\ H([op |-> "podready"])
-  \/ Rare /\ \E n \in Nodes, rdy \in BOOLEAN : PodReplace(n, rdy) /\ H([op |-> "podreplace", node |-> n, ready |-> rdy])
-  \/ (par.ttl > 0 /\ now < MaxNow /\ \E k \in 1..(MaxNow - now) : Tick(k) /\ H([op |-> "tick", n |-> k]))
-  \/ (Rare /\ ~restarted /\ Restart /\ H([op |-> "restart"]))
+  \/ Rare /\ (Focus => job.cEvict = "False:Evicting") /\ PodDelete /\ H([op |-> "poddelete"])
+  \/ ~Focus /\ PodReady /\ H([op |-> "podready"])
+  \/ ~Focus /\ Rare /\ \E n \in Nodes, rdy \in BOOLEAN : PodReplace(n, rdy) /\ H([op |-> "podreplace", node |-> n, ready |-> rdy])
+  \/ (~Focus /\ par.ttl > 0 /\ now < MaxNow /\ \E k \in 1..(MaxNow - now) : Tick(k) /\ H([op |-> "tick", n |-> k]))
+  \/ (~Focus /\ Rare /\ ~restarted /\ Restart /\ H([op |-> "restart"]))
 GenNext == GenStep /\ tail' = IF job.phase \in Terminal THEN tail + 1 ELSE 0
 GenSpec == GenInit /\ [][GenNext]_gvars
-GenView == <<vars, tail>>
+\* lastWrites is a function of the step taken: not part of the view. Focus: the ORDER of the reports about the reservation
+\* so far is part of the view, so that every order is kept (not only one shortest schedule per model state)
+ResvOps == SelectSeq(hist, LAMBDA h : h.op \in {"rsched", "runsched", "rexpire", "rdelete", "rbind", "rpreempted"})
+GenView == <<job, resv, pod, now, par, restarted, lastCalls, nEvict, faulted, tail, IF Focus THEN ResvOps ELSE <<>> >>
 GenBound == Len(hist) <= K /\ tail < TailLen        \* states beyond are printed but not expanded
 GenPrint == (Len(hist) >= 3 /\ hist[Len(hist)].op = "reconcile") => PrintT(ToJson(hist))
 SimPrint == Len(hist) = K + 1 => PrintT(ToJson(hist))
+F0 == {{}, {1}, {2}}
 F1 == {{}, {1}, {2}, {3}, {4}, {5}}
 F2 == F1 \cup {{1, 2}, {2, 3}, {3, 4}, {1, 3}, {2, 4}}
+P0 == {[ttl |-> 0, preempt |-> FALSE, owned |-> FALSE], [ttl |-> 0, preempt |-> TRUE, owned |-> FALSE]}
 P1 == {[ttl |-> 0, preempt |-> FALSE, owned |-> FALSE], [ttl |-> 2, preempt |-> TRUE, owned |-> FALSE]}
 P2 == P1 \cup {[ttl |-> 2, preempt |-> FALSE, owned |-> TRUE], [ttl |-> 1, preempt |-> TRUE, owned |-> FALSE]}
 =============================================================================
